@@ -129,6 +129,10 @@ fn direct(c: &Value) -> (Value, Option<String>) {
                 SampleError::WrongSize(_) => "WrongSize",
                 SampleError::WrongMagic(_) => "WrongMagic",
                 SampleError::WrongPulse(_) => "WrongPulse",
+                // (variants added after this harness was written, e.g. the non-finite offset rejection of the
+                // fix for finding F-10, are told apart by their message)
+                #[allow(unreachable_patterns)]
+                other => if other.to_string().to_lowercase().contains("offset") { "NonFinite" } else { "OtherRejection" },
             };
             (json!({"result": r, "accepted": false, "leap": "none"}), None)
         }
